@@ -185,3 +185,12 @@ Theorem multitaskbcd_stop_is_criterion_of_returned_point :
   exists lip opt, mtk_lipschitz K = Ok lip /\ mt_crit cfg K lip (g_s out) = Ok (opt, g_stop out).
 Proof. intros F H. exact (@mt_solve_stop_is_criterion F H). Qed.
 Print Assumptions multitaskbcd_stop_is_criterion_of_returned_point.
+
+(* ---------------------------------------------------------------- GroupProxNewton -------------------------- *)
+Require Import SK.Skel.GroupProxNewton.
+Theorem groupproxnewton_stop_is_criterion_of_returned_point :
+  forall {F} `{Num F} (cfg : @pn_config F) (K : @pn_kernels F) w_init Xw_init out,
+  gpn_solve cfg K w_init Xw_init = Ok out -> ele (g_stop out) (pn_tol cfg) = true ->
+  exists c, gpn_crit cfg K (g_s out) = Ok (c, g_stop out).
+Proof. intros F H. exact (@gpn_solve_stop_is_criterion F H). Qed.
+Print Assumptions groupproxnewton_stop_is_criterion_of_returned_point.
